@@ -37,6 +37,12 @@ func (m *minimiser) holds(c *proto.Record) (*proto.Record, bool) {
 			return nil, false // a candidate that breaks the harness is simply not kept
 		}
 		if res.Record != nil && sameViolation(m.want, res.Record) {
+			if len(res.Record.Prefix) < len(c.Prefix) {
+				// the violation showed in an earlier run of the candidate's history: the
+				// harness promoted that run; the candidate becomes the promoted record
+				c.Run = res.Record.Run
+				c.Prefix = res.Record.Prefix
+			}
 			return res.Record, true
 		}
 	}
